@@ -23,7 +23,13 @@ RULE = ("a case = a bundle of direct calls at one dimension n (so compiled kerne
         "cg_tol 1e-12..1e-4 and the radius (12 decades absolute, or 6 decades around the natural step length) are drawn "
         "from the case seed.  Non-trivial = at least one call of the bundle took >= 2 CG iterations or left through a "
         "boundary exit (CG), used the second dogleg leg or clipped the Cauchy point (dogleg), or needed a non-zero "
-        "multiplier (exact).  distinct = canonical hash of the case parameters.")
+        "multiplier (exact).  Exact-structure classes (exact_struct / cg_struct / dogleg_struct): integer or dyadic matrices, no "
+        "random orthogonal conjugation (axis permutations and Hadamard matrices only), whose structure holds bit-for-bit -- exactly "
+        "zero trace, zero diagonal, spectrum symmetric about 0 (KKT blocks), duplicate / zero eigenvalues, A = 0 with b != 0 and "
+        "b = 0, b an integer combination of the exact eigenvectors orthogonal to the lowest one, radii 2^k, Cauchy / Newton point "
+        "exactly on the boundary; plus the exhaustively enumerated sub-space of the exact solver: every symmetric 2x2 with entries "
+        "in {-2..2} x b in {-1,0,1}^2 x Delta in {0.5,1,4} (3375 calls) and every such 1x1 (45 calls) -- see "
+        "coverage.exhaustive_subspaces.  distinct = canonical hash of the case parameters.")
 ASSUMPTIONS = [
     "numpy.linalg.eigh / inv / longdouble arithmetic are correct (reference oracles); oracle eigen-decomposition error "
     "c*eps*||A|| is covered by the stated rounding floors",
@@ -65,6 +71,15 @@ REQUIRED = {
         "exact.hard_multiple_lowest": 5, "exact.near_hard_calls": 4,
         "insitu.solves": 2, "insitu.cg_contract_evals": 2, "insitu.dogleg_contract_evals": 2, "insitu.exact_contract_evals": 1,
         "contract_evals:subspace_cg": 1,
+        "exact.exhaustive_2x2_calls": 125 * 9 * 3, "exact.exhaustive_1x1_calls": 5 * 3 * 3, "exact.exhaustive_hard_cases": 50,
+        "exact_struct.calls": 400, "cg_struct.calls": 400, "dogleg_struct.calls": 100,
+        "exact_struct:trace_exactly_zero": 150, "exact_struct:diagonal_exactly_zero": 60,
+        "exact_struct:spectrum_symmetric_about_zero": 80, "exact_struct:duplicate_eigenvalues": 100,
+        "exact_struct:zero_eigenvalue": 100, "exact_struct:zero_matrix_b_nonzero": 20, "exact_struct:zero_matrix_b_zero": 20,
+        "exact_struct:b_zero": 50, "exact_struct.hard_case": 40, "exact_struct.hard_case_hadamard_basis": 5,
+        "cg_struct:trace_exactly_zero": 100, "cg_struct:diagonal_exactly_zero": 40, "cg_struct:zero_matrix": 20,
+        "cg_struct:duplicate_eigenvalues": 60, "cg_struct:zero_eigenvalue": 60,
+        "dogleg_struct.kind:3": 10, "dogleg_struct.kind:4": 10,
     },
 }
 WATCHDOG_S = {"quick": 2400, "thorough": 4 * 3600}
@@ -78,6 +93,25 @@ CONFIRM_PER_WORKER = 2
 N_QUICK = [1, 2, 3, 4, 5, 6, 8, 10, 13, 16, 20, 25, 32, 40]
 CG_SPECTRA = ["spd", "indefinite", "singular", "repeated", "clustered", "zero_curvature"]
 EXACT_KINDS = ["interior", "boundary", "hard", "hard_multi", "near_hard", "singular", "special"]
+XS_NS = [1, 2, 3, 4, 5, 8]
+XS_KINDS = ["zero_trace", "zero_diagonal", "pm_spectrum", "duplicates", "zero_eigs", "zero_matrix", "hard_integer", "hadamard"]
+EXHAUSTIVE_2X2 = 125 * 9 * 3
+EXHAUSTIVE_1X1 = 5 * 3 * 3
+
+
+def finalize(results, tier):
+    """Evidence for the exhaustively enumerated sub-space of the exact solver."""
+    n2 = sum(r.get("obs", {}).get("exact.exhaustive_2x2_calls", 0) for r in results)
+    n1 = sum(r.get("obs", {}).get("exact.exhaustive_1x1_calls", 0) for r in results)
+    bad = sum(1 for r in results if r["case"].get("cls", "").startswith("exact_exhaustive") and r.get("status") != "held")
+    out = {"exhaustive_subspaces": [
+        {"routine": "treigen.solve", "space": "all symmetric 2x2 with entries in {-2,-1,0,1,2} x b in {-1,0,1}^2 x Delta in {0.5,1,4}",
+         "size": EXHAUSTIVE_2X2, "enumerated": int(n2), "complete": n2 == EXHAUSTIVE_2X2, "cases_not_held": bad},
+        {"routine": "treigen.solve", "space": "all 1x1 a in {-2..2} x b in {-1,0,1} x Delta in {0.5,1,4}",
+         "size": EXHAUSTIVE_1X1, "enumerated": int(n1), "complete": n1 == EXHAUSTIVE_1X1}]}
+    if n2 != EXHAUSTIVE_2X2 or n1 != EXHAUSTIVE_1X1:
+        out["_missing"] = ["exhaustive sub-space incomplete: %d/%d, %d/%d" % (n2, EXHAUSTIVE_2X2, n1, EXHAUSTIVE_1X1)]
+    return out
 
 
 def build_cases(tier, seed):
@@ -105,6 +139,23 @@ def build_cases(tier, seed):
                 cost = 6.0 if k == "near_hard" else 1.0
                 cases.append({"cls": "exact_" + k, "group": grp, "n": n, "calls": c, "cost": cost,
                               "seed": derive_seed(seed, PROPERTY, "exact_" + k, n, rep)})
+    # exact-structure classes: integer / dyadic matrices whose structure (zero trace, zero diagonal, +- symmetric spectrum,
+    # duplicate or zero eigenvalues, b orthogonal to the lowest eigenvector) holds bit-for-bit; radii are powers of two
+    xs_reps = 1 if tier == "quick" else 12
+    for rep in range(xs_reps):
+        for n in XS_NS:
+            for kind in XS_KINDS:
+                cases.append({"cls": "exact_struct", "group": "n%d" % n, "n": n, "kind": kind, "calls": 12, "cost": 0.6,
+                              "seed": derive_seed(seed, PROPERTY, "exact_struct", kind, n, rep)})
+                cases.append({"cls": "cg_struct", "group": "n%d" % n, "n": n, "kind": kind, "calls": 12, "cost": 0.6,
+                              "seed": derive_seed(seed, PROPERTY, "cg_struct", kind, n, rep)})
+            cases.append({"cls": "dogleg_struct", "group": "n%d" % n, "n": n, "calls": 24, "cost": 0.4,
+                          "seed": derive_seed(seed, PROPERTY, "dogleg_struct", n, rep)})
+    # exhaustive sub-space: every symmetric 2x2 with entries in {-2..2} x b in {-1,0,1}^2 x Delta in {0.5, 1, 4} (3375 calls),
+    # and every 1x1 a in {-2..2} x b in {-1,0,1} x the same radii (45 calls)
+    for chunk in range(25):
+        cases.append({"cls": "exact_exhaustive_2x2", "group": "n2", "n": 2, "chunk": chunk, "cost": 2.0, "seed": 0})
+    cases.append({"cls": "exact_exhaustive_1x1", "group": "n1", "n": 1, "cost": 0.5, "seed": 0})
     n_insitu = 4 if tier == "quick" else 40
     for i in range(n_insitu):
         n = [2, 3, 5, 8][i % 4]
@@ -411,6 +462,127 @@ def gen_exact_call(rng, n, kind, k):
     return A, b, Delta, rec
 
 
+def _hadamard(n):
+    H = onp.array([[1.0]])
+    while H.shape[0] < n:
+        H = onp.block([[H, H], [H, -H]])
+    return H
+
+
+def _ints(rng, shape, lo=-3, hi=3):
+    return rng.integers(lo, hi + 1, size=shape).astype(float)
+
+
+def gen_struct_matrix(rng, n, kind):
+    """Symmetric integer matrix whose structure holds exactly.  Returns (A, info); info may carry an exact lowest eigenvector
+    direction ('low': integer vector) for the integer hard case."""
+    info = {}
+    perm = rng.permutation(n)
+    Pm = onp.eye(n)[:, perm]
+    if kind == "zero_matrix":
+        return onp.zeros((n, n)), info
+    if kind == "zero_trace":
+        if n == 1:
+            return onp.zeros((1, 1)), info
+        if n == 3 and rng.random() < 0.3:
+            return Pm @ onp.diag([2.0, -1.0, -1.0]) @ Pm.T * float(rng.integers(1, 4)), info
+        M = _ints(rng, (n, n))
+        A = onp.triu(M, 1) + onp.triu(M, 1).T + onp.diag(onp.diag(M))
+        A[n - 1, n - 1] = -onp.trace(A[:n - 1, :n - 1])
+        if rng.random() < 0.3:                       # saddles x^2 - y^2, xy embedded
+            A = onp.zeros((n, n))
+            A[0, 0], A[1, 1] = 1.0, -1.0
+            if rng.random() < 0.5:
+                A[0, 0] = A[1, 1] = 0.0
+                A[0, 1] = A[1, 0] = 1.0
+            A = A * float(rng.integers(1, 4))
+        return Pm @ A @ Pm.T, info
+    if kind == "zero_diagonal":
+        M = _ints(rng, (n, n))
+        A = onp.triu(M, 1) + onp.triu(M, 1).T
+        return A, info
+    if kind == "pm_spectrum":                        # [[0, B], [B^T, 0]] (KKT-like block): spectrum exactly symmetric about 0
+        m = n // 2
+        A = onp.zeros((n, n))
+        if m:
+            Bm = _ints(rng, (m, n - m))
+            A[:m, m:] = Bm
+            A[m:, :m] = Bm.T
+        if rng.random() < 0.3:
+            d = _ints(rng, (m,), 1, 4)
+            A = onp.zeros((n, n))
+            A[:m, :m] = onp.diag(d)
+            A[m:2 * m, m:2 * m] = -onp.diag(d)
+        return Pm @ A @ Pm.T, info
+    if kind == "duplicates":
+        u = rng.random()
+        if u < 0.35:
+            A = float(rng.integers(-3, 4)) * onp.eye(n) + float(rng.integers(-3, 4)) * onp.ones((n, n))
+        elif u < 0.7:
+            vals = _ints(rng, (max(1, n // 2),))
+            A = onp.diag(vals[rng.integers(0, len(vals), n)])
+            A = Pm @ A @ Pm.T
+        else:
+            blk = onp.array([[float(rng.integers(-2, 3)), float(rng.integers(-2, 3))], [0.0, 0.0]])
+            blk[1, 0] = blk[0, 1]
+            blk[1, 1] = float(rng.integers(-2, 3))
+            A = onp.zeros((n, n))
+            for j in range(0, n - 1, 2):
+                A[j:j + 2, j:j + 2] = blk
+            A = Pm @ A @ Pm.T
+        return A, info
+    if kind == "zero_eigs":
+        v = _ints(rng, (n,))
+        w = _ints(rng, (n,))
+        u = rng.random()
+        if u < 0.4:
+            A = onp.outer(v, v)
+        elif u < 0.7:
+            A = onp.outer(v, v) - onp.outer(w, w)
+        else:
+            d = _ints(rng, (n,))
+            d[rng.integers(0, n)] = 0.0
+            if n > 1:
+                d[rng.integers(0, n)] = 0.0
+            A = Pm @ onp.diag(d) @ Pm.T
+        return A, info
+    if kind in ("hard_integer", "hadamard"):
+        H = _hadamard(n) if n in (1, 2, 4, 8) and (kind == "hadamard" or rng.random() < 0.5) else None
+        d = _ints(rng, (n,), -4, 4)
+        if kind == "hard_integer":
+            j = int(rng.integers(n))
+            d[j] = d.min() - float(rng.integers(1, 4))               # unique lowest (negative or not)
+            if rng.random() < 0.3 and n > 2:
+                k2 = (j + 1) % n
+                d[k2] = d[j]                                         # multiple lowest
+        if H is not None:
+            A = H @ onp.diag(d * n) @ H.T / n                        # exact: integer matrix with eigenvectors H[:, j] / sqrt(n)
+            info["basis"] = H
+        else:
+            A = Pm @ onp.diag(d) @ Pm.T
+            info["basis"] = Pm
+        info["eigs"] = d
+        return A, info
+    raise ValueError(kind)
+
+
+def gen_struct_exact_call(rng, n, kind, k):
+    A, info = gen_struct_matrix(rng, n, kind)
+    b = _ints(rng, (n,))
+    if kind == "zero_matrix" and k % 2:
+        b = onp.zeros(n)
+    if k % 5 == 4:
+        b = onp.zeros(n)
+    if kind == "hard_integer" or (kind == "hadamard" and k % 2):
+        # b exactly orthogonal to the lowest eigenspace: integer combination of the other (exact) eigenvectors
+        d = info["eigs"]
+        cfs = _ints(rng, (n,))
+        cfs[d == d.min()] = 0.0
+        b = info["basis"] @ cfs
+    Delta = 2.0 ** int(rng.integers(-6, 7))
+    return A, b, Delta, {"kind": kind, "n": n, "Delta": Delta, "basis": "hadamard" if "basis" in info and info["basis"].shape[0] > 1 and abs(info["basis"][0, 0]) == 1 and (onp.abs(info["basis"]) == 1).all() else "permutation"}
+
+
 # ------------------------------------------------------------------------------------------------ worker side
 
 _W = {"installed": False, "warm": set(), "no_return": 0}
@@ -574,6 +746,177 @@ def _run_exact_bundle(case, res, mon):
     res.nontrivial = nontriv
 
 
+def _census(res, A, b, prefix):
+    n = A.shape[0]
+    if not onp.any(A):
+        res.count(prefix + "struct:zero_matrix")
+        res.count(prefix + ("struct:zero_matrix_b_zero" if not onp.any(b) else "struct:zero_matrix_b_nonzero"))
+    else:
+        if onp.trace(A) == 0:
+            res.count(prefix + "struct:trace_exactly_zero")
+        if not onp.any(onp.diag(A)):
+            res.count(prefix + "struct:diagonal_exactly_zero")
+        w = onp.linalg.eigvalsh(A)
+        sc = onp.abs(w).max()
+        if onp.abs(w + w[::-1]).max() <= 1e-12 * sc:
+            res.count(prefix + "struct:spectrum_symmetric_about_zero")
+        if (onp.diff(w) <= 1e-12 * sc).any():
+            res.count(prefix + "struct:duplicate_eigenvalues")
+        if (onp.abs(w) <= 1e-12 * sc).any():
+            res.count(prefix + "struct:zero_eigenvalue")
+    if not onp.any(b):
+        res.count(prefix + "struct:b_zero")
+
+
+def _exact_one(res, mon, treigen, A, b, Delta, rec, tag):
+    """One guarded call of the exact solver (+ contract); returns the oracle record."""
+    import jax.numpy as np
+    mon.set_context(dict(rec, tag=tag))
+    res.count("exact.calls")
+    try:
+        mon.call_with_watchdog(treigen.solve, (np.asarray(A), np.asarray(b), Delta), WALL_BUDGET_S)
+    except mon.ExactSolverNoReturn as e:
+        mech, ref = mon.classify_no_return(A, b, Delta)
+        res.count("exact.no_return")
+        res.violate("exact.no_return", {"why": str(e), "A": A.tolist() if A.shape[0] <= 4 else None, "b": b.tolist(), "Delta": Delta, "call": rec}, mech)
+        res.checks += 1
+        return ref
+    except mon.C06ContractViolation:
+        raise
+    except Exception as e:
+        res.violate("exact.raised", {"exception": "%s: %s" % (type(e).__name__, str(e)[:200]), "A": A.tolist() if A.shape[0] <= 4 else None,
+                                     "b": b.tolist(), "Delta": Delta})
+        return None
+    return mon.trs_global_min(A, b, Delta)
+
+
+def _run_exact_struct(case, res, mon):
+    from optimism.treigen import treigen
+    rng = rng_of(case["seed"])
+    n, kind = case["n"], case["kind"]
+    _warm_exact(n, mon)
+    nontriv = False
+    for k in range(case["calls"]):
+        A, b, Delta, rec = gen_struct_exact_call(rng, n, kind, k)
+        res.count("exact_struct.calls")
+        res.count("exact_struct.kind:" + kind)
+        _census(res, A, b, "exact_")
+        ref = _exact_one(res, mon, treigen, A, b, Delta, rec, "exact_struct")
+        if ref is not None:
+            if ref["lam"] > 0:
+                nontriv = True
+            if ref["case"] == "hard":
+                res.count("exact_struct.hard_case")
+                if rec["basis"] == "hadamard":
+                    res.count("exact_struct.hard_case_hadamard_basis")
+    mon.set_context(None)
+    res.nontrivial = nontriv or kind == "zero_matrix"
+
+
+def _run_exact_exhaustive(case, res, mon):
+    import itertools
+    from optimism.treigen import treigen
+    n = case["n"]
+    _warm_exact(n, mon)
+    vals = [-2.0, -1.0, 0.0, 1.0, 2.0]
+    radii = [0.5, 1.0, 4.0]
+    if n == 1:
+        mats = [onp.array([[a]]) for a in vals]
+        bs = [onp.array([x]) for x in (-1.0, 0.0, 1.0)]
+    else:
+        allm = [onp.array([[a, c], [c, d]]) for a, c, d in itertools.product(vals, vals, vals)]
+        mats = allm[case["chunk"] * 5:(case["chunk"] + 1) * 5]
+        bs = [onp.array([x, y]) for x, y in itertools.product((-1.0, 0.0, 1.0), repeat=2)]
+    for A in mats:
+        for b in bs:
+            for D in radii:
+                _census(res, A, b, "exact_")
+                ref = _exact_one(res, mon, treigen, A, b, D, {"kind": "exhaustive", "n": n, "Delta": D}, "exhaustive")
+                res.count("exact.exhaustive_%dx%d_calls" % (n, n))
+                if ref is not None and ref["case"] == "hard":
+                    res.count("exact.exhaustive_hard_cases")
+    mon.set_context(None)
+    res.nontrivial = True
+
+
+def _run_cg_struct(case, res, mon):
+    import jax.numpy as np
+    from optimism import EquationSolver as ES
+    rng = rng_of(case["seed"])
+    n, kind = case["n"], case["kind"]
+    deep = False
+    for k in range(case["calls"]):
+        H, info = gen_struct_matrix(rng, n, kind)
+        g = _ints(rng, (n,))
+        if k % 6 == 5:
+            g = onp.zeros(n)
+        P = onp.eye(n) if k % 3 else onp.diag(2.0 ** rng.integers(-3, 4, n).astype(float))
+        pre = bool(k % 2)
+        Delta = 2.0 ** int(rng.integers(-6, 7))
+        rec = {"kind": kind, "n": n, "Delta": Delta, "pre": pre, "struct": True}
+        _census(res, H, g, "cg_")
+        Hj, Pj = np.asarray(H), np.asarray(P)
+        st = ES.get_settings(use_preconditioned_inner_product_for_cg=pre, max_cg_iters=int(rng.integers(1, 30)), debug_info=False,
+                             cg_tol=10.0 ** rng.uniform(-12, -6))
+        mon.set_context(dict(rec, seed=case["seed"], call=k))
+        try:
+            out = ES.solve_trust_region_minimization(np.zeros(n), np.asarray(g), lambda v: Hj @ v, lambda v: Pj @ v, Delta, st)
+        except mon.C06ContractViolation:
+            raise
+        except Exception as e:
+            res.violate("cg.raised", {"exception": "%s: %s" % (type(e).__name__, str(e)[:200]), "H": H.tolist() if n <= 4 else None,
+                                      "g": g.tolist(), "call": rec})
+            continue
+        res.count("cg.calls")
+        res.count("cg_struct.calls")
+        if int(out[3]) >= 2 or out[2] in ("boundary", "neg curve"):
+            deep = True
+    mon.set_context(None)
+    res.nontrivial = deep
+
+
+def _run_dogleg_struct(case, res, mon):
+    import jax.numpy as np
+    from optimism import EquationSolver as ES
+    rng = rng_of(case["seed"])
+    n = case["n"]
+    for k in range(case["calls"]):
+        cp = _ints(rng, (n,), -4, 4)
+        nw = _ints(rng, (n,), -8, 8)
+        M = onp.eye(n) if k % 2 else onp.diag(2.0 ** rng.integers(-2, 3, n).astype(float))
+        kind = k % 6
+        if kind == 0:
+            nw = cp * float(rng.integers(1, 4))                      # exactly collinear
+        elif kind == 1:
+            nw = cp.copy()                                           # identical
+        elif kind == 2:
+            cp = onp.zeros(n)
+        Delta = 2.0 ** int(rng.integers(-4, 5))
+        if kind == 3:                                                # Cauchy point exactly on the boundary: cc == tt bit for bit
+            cp = onp.zeros(n)
+            cp[0] = Delta
+            M = onp.eye(n)
+        elif kind == 4:                                              # quasi-Newton point exactly on the boundary: nn == tt
+            nw = onp.zeros(n)
+            nw[-1] = Delta
+            cp = nw / 4.0 if n == 1 else onp.eye(n)[0] * Delta / 4.0
+            M = onp.eye(n)
+        Mj = np.asarray(M)
+        mon.set_context({"kind": "struct%d" % kind, "n": n, "Delta": Delta, "call": k, "seed": case["seed"]})
+        try:
+            ES.dogleg_step(np.asarray(cp), np.asarray(nw), Delta, lambda v: Mj @ v)
+        except mon.C06ContractViolation:
+            raise
+        except Exception as e:
+            res.violate("dogleg.raised", {"exception": "%s: %s" % (type(e).__name__, str(e)[:200]), "cp": cp.tolist(), "newton": nw.tolist()})
+            continue
+        res.count("dogleg.calls")
+        res.count("dogleg_struct.calls")
+        res.count("dogleg_struct.kind:%d" % kind)
+    mon.set_context(None)
+    res.nontrivial = True
+
+
 class _DenseObjective:
     """Duck-typed objective for the in-situ class: f(x) = sum_i w_i (x_i^2 - 1)^2 / 4 + x.K.x / 2 - c.x (non-convex)."""
 
@@ -647,11 +990,19 @@ def run_case(case):
     mon.LOG.reset()
     cls = case["cls"]
     try:
-        if cls.startswith("cg_"):
+        if cls == "cg_struct":
+            _run_cg_struct(case, res, mon)
+        elif cls.startswith("cg_"):
             _run_cg_bundle(case, res, mon)
         elif cls == "dogleg":
             _run_dogleg_bundle(case, res, mon)
             res.nontrivial = (mon.LOG.counters.get("dogleg.branch:second_leg", 0) + mon.LOG.counters.get("dogleg.branch:cauchy_clipped", 0)) > 0
+        elif cls == "exact_struct":
+            _run_exact_struct(case, res, mon)
+        elif cls.startswith("exact_exhaustive"):
+            _run_exact_exhaustive(case, res, mon)
+        elif cls == "dogleg_struct":
+            _run_dogleg_struct(case, res, mon)
         elif cls.startswith("exact_"):
             _run_exact_bundle(case, res, mon)
         elif cls == "insitu":
